@@ -208,6 +208,9 @@ func (goh *GoatOverHttp) retrieve(id string) (*httpReadWriter, bool) {
 			clock:     goh.clock,
 		}
 
+		// a connection is not idle before it has existed for the timeout
+		conn.bumpActivity()
+
 		goh.conns.value[id] = conn
 	}
 
